@@ -1,16 +1,16 @@
 """C14 — The arity check accepts exactly multilinear integrands.
 
-spec/Arity.tla builds integrands node by node (UFLBuild's store, restricted to the lowered language
-plus a few user-level operators), carries for every node (b) the arity the handlers of
-ufl/algorithms/check_arities.py compute, transcribed as coded in spec/ArityRules.tla (with the list
-tensor rule both as coded and as intended), and (c) the exact value of the node in an experiment of
-environments in which each form argument takes the values v, 0, 2v, -v, w, v+w (and iv in complex
-mode), so that "linear in argument n" (antilinear in the test function in complex mode) is decided on
-exact Gaussian rationals.  TLC checks  Accepts => Multilinear  and  NonlinearOrAffine => ~Accepts
-over every reachable term (it fails for the list tensor rule as coded, holds for the intended rule)
-and dumps every term with the model's verdicts and semantic classes.
+spec/Arity.tla builds integrands node by node (the lowered language the checker sees, plus a few
+user-level operators with their lowered form spelled out); every node record carries (b) the arity
+the handlers of ufl/algorithms/check_arities.py compute, transcribed as coded in
+spec/ArityRules.tla (the list tensor rule both as coded and as intended), and (c) the exact value of
+the node in an experiment of environments in which each form argument takes the values v, 0, 2v, -v,
+w, v+w (and iv in complex mode), so that "linear in argument n" (antilinear in the test function in
+complex mode) is decided on exact Gaussian rationals.  TLC checks  Accepts => Multilinear  and
+NonlinearOrAffine => ~Accepts  over every reachable term (fails for the list tensor rule as coded,
+holds for the intended rule) and dumps every term with the model's verdicts and semantic classes.
 
-Conformance (this module), for every dumped term, in the mode of its slice:
+Conformance (this module), for every dumped term, in the mode of its run:
   * the program is executed through ufl's public API with real Argument / Coefficient objects and
     pushed through the pipeline of compute_form_data up to the arity check (do_comparison_check in
     complex mode, apply_algebra_lowering, remove_complex_nodes in real mode, apply_derivatives), then
@@ -36,6 +36,7 @@ import itertools
 import json
 import os
 import random
+import re
 import time
 from fractions import Fraction
 
@@ -47,63 +48,59 @@ TLC_WORKERS = 4  # in total
 TLC_JOBS = 2  # concurrent TLC processes
 PY_WORKERS = 6
 NGROUPS = 2
+NARGS = 2
 JAVA = "-DTLA-Library=/verif/spec -Xmx4g -XX:ParallelGCThreads=2"
 
 # ------------------------------------------------------------------------------------------------
-# Slices: terminal pool (name, shape, role), operator alphabet, bounds, mode
+# Terminal pool (one per mode), slices (bounded instances), runs (one TLC process each)
 # roles: arg0 / arg1 (the Argument itself), grad0 / grad1 (grad of it), rval0 (ReferenceValue),
 #        rgrad0 (ReferenceGrad(ReferenceValue)), coef, geom (SpatialCoordinate), geoms (CellVolume)
+# An argument number has one scalar and one vector incarnation (v / vv): a slice uses one of them.
 # ------------------------------------------------------------------------------------------------
 
-ROLE_NUM = {"arg0": 0, "arg1": 1, "grad0": 0, "grad1": 1, "rval0": 0, "rgrad0": 0, "rval1": 1}
-ROLE_WRAP = {"arg0": "none", "arg1": "none", "grad0": "grad", "grad1": "grad", "rval0": "rval", "rval1": "rval", "rgrad0": "rgrad"}
+ROLE_NUM = {"arg0": 0, "arg1": 1, "grad0": 0, "grad1": 1, "rval0": 0, "rgrad0": 0}
+ROLE_WRAP = {"arg0": "none", "arg1": "none", "grad0": "grad", "grad1": "grad", "rval0": "rval", "rgrad0": "rgrad"}
 
-LITS = {"one": ("one", Fraction(1)), "two": ("two", Fraction(2)), "h": ("onehalf", Fraction(3, 2)), "i": ("imag", complex(0, 1))}
+TERMS = {
+    # name: (shape, role, underlying argument name)
+    "v": ((), "arg0", "v"),
+    "u": ((), "arg1", "u"),
+    "vv": ((2,), "arg0", "vv"),
+    "uu": ((2,), "arg1", "uu"),
+    "gv": ((2,), "grad0", "v"),
+    "gu": ((2,), "grad1", "u"),
+    "rv": ((), "rval0", "v"),
+    "rgv": ((2,), "rgrad0", "v"),
+    "f": ((), "coef", None),
+    "g": ((), "coef", None),
+    "c": ((2,), "coef", None),
+    "x": ((2,), "geom", None),
+    "vol": ((), "geoms", None),
+}
+TERM_ORDER = list(TERMS)
+LITS = {"one": Fraction(1), "two": Fraction(2), "onehalf": Fraction(3, 2), "imag": complex(0, 1)}
+ZEROS = {"z": (), "zz": (2,)}
+IDX = (10, 11)
 
 
 class Slice:
-    def __init__(self, name, terms, ops, maxnodes, cm, lits=(), zeros=((),), idx=(10,), maxrank=1, maxdim=2, simulate=None, depth=None):
-        self.name = name
-        self.terms = [tuple(t) for t in terms]
-        self.ops = sorted(ops)
-        self.maxnodes = maxnodes
-        self.cm = bool(cm)
-        self.lits = [LITS[x] for x in lits]
-        self.zeros = [tuple(z) for z in zeros]
-        self.idx = list(idx)
-        self.maxrank = maxrank
-        self.maxdim = maxdim
-        self.simulate = simulate
-        self.depth = depth
-        self.nargs = 1 + max([ROLE_NUM[r] for _, _, r in self.terms if r in ROLE_NUM] + [0])
+    """A bounded instance: usable initial nodes (terminal / literal / zero names), operations,
+    node bound, rank bound, index names; simulate = number of random behaviours (else exhaustive)."""
+
+    def __init__(self, name, use, ops, maxnodes, cm, idx=(10,), maxrank=1, simulate=None):
+        self.name, self.use, self.ops, self.maxnodes, self.cm = name, list(use), sorted(ops), maxnodes, bool(cm)
+        self.idx, self.maxrank, self.simulate = list(idx), maxrank, simulate
+        for n in self.use:
+            if n not in TERMS and n not in LITS and n not in ZEROS:
+                raise MachineryError(f"slice {name}: unknown initial node {n}")
 
     def to_json(self):
-        return {
-            "name": self.name,
-            "terms": [[n, list(s), r] for n, s, r in self.terms],
-            "ops": self.ops,
-            "maxnodes": self.maxnodes,
-            "cm": self.cm,
-            "lits": [k for k, v in LITS.items() if v in self.lits],
-            "zeros": [list(z) for z in self.zeros],
-            "idx": self.idx,
-            "maxrank": self.maxrank,
-            "maxdim": self.maxdim,
-            "simulate": self.simulate,
-            "depth": self.depth,
-        }
+        return {"name": self.name, "use": self.use, "ops": self.ops, "maxnodes": self.maxnodes, "cm": self.cm, "idx": self.idx, "maxrank": self.maxrank, "simulate": self.simulate}
 
     @staticmethod
     def from_json(d):
-        return Slice(d["name"], [(n, tuple(s), r) for n, s, r in d["terms"]], d["ops"], d["maxnodes"], d["cm"], d["lits"], [tuple(z) for z in d["zeros"]], d["idx"], d["maxrank"], d["maxdim"], d.get("simulate"), d.get("depth"))
+        return Slice(d["name"], d["use"], d["ops"], d["maxnodes"], d["cm"], d["idx"], d["maxrank"], d.get("simulate"))
 
-
-SV, SU = ("v", (), "arg0"), ("u", (), "arg1")
-VV, VU = ("v", (2,), "arg0"), ("u", (2,), "arg1")
-F, G, C = ("f", (), "coef"), ("g", (), "coef"), ("c", (2,), "coef")
-GV, GU = ("gv", (2,), "grad0"), ("gu", (2,), "grad1")
-X, VOL = ("x", (2,), "geom"), ("vol", (), "geoms")
-RV, RGV = ("rv", (), "rval0"), ("rgv", (2,), "rgrad0")
 
 ALG = {"add", "sub", "neg", "mul", "div", "pow", "abs", "sqrt", "sign"}
 DEEP = {"add", "sub", "mul", "div", "pow", "abs", "index", "isum", "as_tensor", "list", "lt", "cond", "inner", "dot", "outer", "restrict", "variable", "neg"}
@@ -111,36 +108,70 @@ DEEP = {"add", "sub", "mul", "div", "pow", "abs", "index", "isum", "as_tensor", 
 
 def slices(tier):
     q = tier == "quick"
+    S = Slice
     out = [
         # scalar algebra: sum / product / division / power / abs / math functions
-        Slice("alg-r", [SV, SU, F, G], ALG, 2, False, lits=["two", "h", "one"]),
-        Slice("alg-c", [SV, SU, F], {"add", "mul", "div", "conj", "real", "imag", "abs", "neg"}, 2, True, lits=["two", "i"]),
+        S("alg-r", ["v", "u", "f", "two", "one"] + ([] if q else ["g", "onehalf"]), ALG if not q else ALG - {"sub", "sign"}, 2, False),
+        S("alg-c", ["v", "u", "f", "two"] + ([] if q else ["imag"]), {"add", "mul", "div", "conj", "real", "imag", "abs"} | (set() if q else {"neg"}), 2, True),
         # list tensors and contractions (the known defect lives here)
-        Slice("list-r", [SV, SU, F, C], {"list", "dot", "inner", "mul", "add"}, 2 if q else 3, False, lits=["one", "h"]),
-        Slice("list-c", [SV, SU, C], {"list", "inner", "dot", "conj", "mul"}, 2 if q else 3, True, lits=["one"]),
-        # index notation: Indexed / IndexSum / ComponentTensor / ListTensor
-        Slice("index-r", [VV, VU, C], {"index", "isum", "as_tensor", "mul", "list"}, 3, False, lits=["one"], idx=(10,)),
+        S("list-r", ["v", "u", "f", "c", "one", "z"] + ([] if q else ["onehalf"]), {"list", "dot", "inner", "mul", "add"}, 2 if q else 3, False),
+        S("list-c", ["v", "u", "c", "one", "z"], {"list", "inner", "dot", "conj", "mul"}, 2 if q else 3, True),
         # conditionals: branches, zero branches, argument-dependent conditions
-        Slice("cond-r", [SV, SU, F, G], {"lt", "eq", "cond", "mul"}, 2 if q else 3, False, lits=["two"]),
-        Slice("cond-c", [SV, F], {"lt", "cond", "real", "conj", "mul"}, 3, True, lits=["two"]),
-        # linear operators on terminals, restrictions, variables, geometry; vector arguments
-        Slice("linop-r", [SV, SU, GV, GU, X, VOL, F], {"restrict", "variable", "inner", "dot", "mul", "index", "add"}, 2, False, lits=["two"], idx=(10,)),
-        Slice("ref-r", [SV, RV, RGV, F, C], {"mul", "add", "dot", "restrict", "variable", "index"}, 2, False, idx=(10,)),
-        Slice("vec-c", [VV, VU, C, F], {"inner", "dot", "outer", "conj", "mul", "index", "isum"}, 2, True, idx=(10, 11), maxrank=2),
+        S("cond-r", ["v", "u", "f", "g", "z"] + ([] if q else ["two"]), {"lt", "cond", "mul"} | (set() if q else {"eq"}), 2 if q else 3, False),
+        # linear operators on terminals, restrictions, variables, geometry, reference values
+        S("linop-r", ["v", "u", "gv", "gu", "x", "f"] + ([] if q else ["vol", "two"]), {"restrict", "variable", "dot", "mul", "index"} | (set() if q else {"inner", "add"}), 2, False),
+        S("ref-r", ["v", "rv", "rgv", "f", "c"], {"mul", "add", "dot", "restrict", "variable", "index"}, 2, False),
+        # vector arguments, sesquilinear products
+        S("vec-c", ["vv", "uu", "c", "f"], {"inner", "dot", "outer", "conj", "mul", "index", "isum"}, 2, True, idx=(10, 11), maxrank=2),
         # real mode erases conj / real before the check
-        Slice("erase-r", [SV, SU, F], {"conj", "real", "mul", "add", "abs"}, 2 if q else 3, False, lits=["two"]),
+        S("erase-r", ["v", "u", "f", "two"], {"conj", "real", "mul", "add", "abs"}, 2 if q else 3, False),
         # deep random terms
-        Slice("deep-r", [SV, SU, F, G, C, GV], DEEP, 6, False, lits=["one", "two", "h"], zeros=((), (2,)), idx=(10, 11), maxrank=2, simulate=1500 if q else 40000, depth=7),
-        Slice("deep-c", [SV, SU, F, C, GU], (DEEP | {"conj", "real", "imag"}) - {"restrict"}, 6, True, lits=["one", "two", "i"], zeros=((), (2,)), idx=(10, 11), maxrank=2, simulate=1000 if q else 30000, depth=7),
-        Slice("deep-vec-c", [VV, VU, C, F], {"inner", "dot", "outer", "conj", "mul", "index", "isum", "add", "sub", "list", "as_tensor", "div", "cond", "lt", "real"}, 5, True, lits=["two"], zeros=((), (2,)), idx=(10, 11), maxrank=2, simulate=800 if q else 30000, depth=6),
+        S("deep-r", ["v", "u", "f", "g", "c", "gv", "one", "two", "onehalf", "z", "zz"], DEEP, 6, False, idx=(10, 11), maxrank=2, simulate=4000 if q else 60000),
+        S("deep-c", ["v", "u", "f", "c", "gu", "one", "two", "imag", "z", "zz"], (DEEP | {"conj", "real", "imag"}) - {"restrict"}, 6, True, idx=(10, 11), maxrank=2, simulate=3000 if q else 50000),
+        S("deep-vec-c", ["vv", "uu", "c", "f", "two", "z", "zz"], {"inner", "dot", "outer", "conj", "mul", "index", "isum", "add", "sub", "list", "as_tensor", "div", "cond", "lt", "real"}, 5, True, idx=(10, 11), maxrank=2, simulate=2000 if q else 40000),
     ]
     if not q:
         out += [
-            Slice("alg3-r", [SV, SU, F], {"add", "mul", "div", "pow", "abs"}, 3, False, lits=["two"]),
-            Slice("alg3-c", [SV, SU, F], {"add", "mul", "conj", "real", "div"}, 3, True, lits=["i"]),
-            Slice("index4-r", [VV, C], {"index", "isum", "mul", "list"}, 4, False, lits=["one"], idx=(10,)),
-            Slice("cond3-r", [SV, F, G], {"lt", "cond", "mul", "add", "list", "dot"}, 3, False, lits=["one"], zeros=((),)),
+            S("index-r", ["vv", "uu", "c", "one", "z"], {"index", "isum", "as_tensor", "mul", "list"}, 3, False),
+            S("cond-c", ["v", "f", "two", "z"], {"lt", "cond", "real", "conj", "mul"}, 3, True),
+            S("alg3-r", ["v", "u", "f", "two"], {"add", "mul", "div", "pow", "abs"}, 3, False),
+            S("alg3-c", ["v", "u", "f", "imag"], {"add", "mul", "conj", "real", "div"}, 3, True),
+            S("index4-r", ["vv", "c", "one"], {"index", "isum", "mul", "list"}, 4, False),
+            S("cond3-r", ["v", "f", "g", "one", "z"], {"lt", "cond", "mul", "add", "list", "dot"}, 3, False),
         ]
+    return out
+
+
+class Run:
+    """One TLC process: all slices of one mode, exhaustive or simulated."""
+
+    def __init__(self, name, cm, subs, simulate=None):
+        self.name, self.cm, self.subs, self.simulate = name, cm, subs, simulate
+        used = set(n for s in subs for n in s.use)
+        self.terms = [n for n in TERM_ORDER if n in used]
+        self.lits = [n for n in LITS if n in used]
+        self.zeros = [n for n in ZEROS if n in used]
+        self.init_names = self.terms + self.lits + self.zeros
+        self.depth = 1 + max(s.maxnodes for s in subs)
+
+    def to_json(self):
+        return {"name": self.name, "cm": self.cm, "subs": [s.to_json() for s in self.subs], "simulate": self.simulate}
+
+    @staticmethod
+    def from_json(d):
+        return Run(d["name"], d["cm"], [Slice.from_json(s) for s in d["subs"]], d.get("simulate"))
+
+
+def runs_of(sls):
+    out = []
+    for cm in (False, True):
+        ex = [s for s in sls if s.cm == cm and not s.simulate]
+        si = [s for s in sls if s.cm == cm and s.simulate]
+        tag = "c" if cm else "r"
+        if ex:
+            out.append(Run("exh-" + tag, cm, ex))
+        if si:
+            out.append(Run("sim-" + tag, cm, si, simulate=sum(s.simulate for s in si)))
     return out
 
 
@@ -154,7 +185,7 @@ def comps(shape):
 
 
 class Layout:
-    def __init__(self, nargs, cm, ngroups=NGROUPS):
+    def __init__(self, cm, nargs=NARGS, ngroups=NGROUPS):
         self.nargs, self.cm, self.ngroups = nargs, cm, ngroups
         self.k = 6 if cm else 5
         self.gs = 1 + self.k * nargs
@@ -172,24 +203,23 @@ SQUARES = [Fraction(4), Fraction(9), Fraction(1, 4), Fraction(9, 4), Fraction(16
 
 
 class ExpPool:
-    """values[e][name][comp] -> Cx for the experiment layout."""
+    """values[e][name][comp] -> Cx for the experiment layout, for the terminals of a run."""
 
-    def __init__(self, sl, seed, values=None):
-        self.sl = sl
-        self.lay = Layout(sl.nargs, sl.cm)
+    def __init__(self, run, seed, values=None):
+        self.run = run
+        self.lay = Layout(run.cm)
         self.nenv = self.lay.nenv
-        self.terminals = [(n, s) for n, s, _ in sl.terms]
         if values is not None:
             self.values = values
             return
-        rng = random.Random(seed * 1000003 + sum(ord(ch) for ch in sl.name))
+        rng = random.Random(seed * 1000003 + sum(ord(ch) for ch in run.name))
         self.values = [dict() for _ in range(self.nenv)]
         for g in range(self.lay.ngroups):
             used = set()
 
             def fresh(square=False):
-                for _ in range(1000):
-                    if sl.cm:
+                for _ in range(2000):
+                    if run.cm:
                         v = Cx(rng.choice([1, 2, 3, 4, 5, -1, -2, -3, -4, -5]), rng.choice([1, 2, 3, 4, -1, -2, -3, -4]))
                     else:
                         v = Cx(rng.choice(SQUARES if square else REAL_CAND))
@@ -201,21 +231,22 @@ class ExpPool:
                 raise MachineryError("environment generator ran out of distinct values")
 
             scal = []  # base values of the scalar coefficients generated so far in this group
-            for name, shape, role in sl.terms:
+            for name in run.terms:
+                shape, role, _ = TERMS[name]
                 sc = role == "coef" and not shape
                 for _ in range(200):
                     snapshot = set(used)
                     base = {c: fresh(square=(sc and not scal)) for c in comps(shape)}
                     # the order of the first two scalar coefficients flips between the groups, so
                     # that a condition f < g selects different branches in different groups
-                    if sl.cm or not sc or len(scal) != 1 or (scal[0].re < base[()].re) == (g % 2 == 0):
+                    if run.cm or not sc or len(scal) != 1 or (scal[0].re < base[()].re) == (g % 2 == 0):
                         break
                     used.clear()
                     used.update(snapshot)
                 if sc:
                     scal.append(base[()])
-                w = {c: fresh() for c in comps(shape)}
                 num = ROLE_NUM.get(role, -1)
+                w = {c: fresh() for c in comps(shape)} if num >= 0 else {}
                 for e in range(self.lay.base(g), self.lay.base(g) + self.lay.gs):
                     self.values[e][name] = dict(base)
                 if num >= 0:
@@ -225,12 +256,13 @@ class ExpPool:
                     var(2)[name] = {c: -base[c] for c in base}
                     var(3)[name] = dict(w)
                     var(4)[name] = {c: base[c] + w[c] for c in base}
-                    if sl.cm:
+                    if run.cm:
                         var(5)[name] = {c: base[c] * Cx(0, 1) for c in base}
 
     def tla_terminals(self):
         ents = []
-        for n, s, r in self.sl.terms:
+        for n in self.run.terms:
+            s, r, _ = TERMS[n]
             ents.append(f'[nm |-> "{n}", sh |-> {_seq(s)}, num |-> {_int(ROLE_NUM.get(r, -1))}, wrap |-> "{ROLE_WRAP.get(r, "none")}"]')
         return "<<" + ", ".join(ents) + ">>"
 
@@ -238,8 +270,8 @@ class ExpPool:
         envs = []
         for env in self.values:
             tabs = []
-            for name, shape in self.terminals:
-                ents = [f"{_seq(c)} :> {to_tla(env[name][c])}" for c in comps(shape)]
+            for name in self.run.terms:
+                ents = [f"{_seq(c)} :> {to_tla(env[name][c])}" for c in comps(TERMS[name][0])]
                 tabs.append("(" + " @@ ".join(ents) + ")")
             envs.append("<<" + ", ".join(tabs) + ">>")
         return "<<" + ",\n   ".join(envs) + ">>"
@@ -248,13 +280,13 @@ class ExpPool:
         return [{n: [[list(c), v.to_json()] for c, v in tab.items()] for n, tab in env.items()} for env in self.values]
 
     @staticmethod
-    def from_json(sl, doc):
+    def from_json(run, doc):
         def cx(v):
             f = lambda x: Fraction(x[0], x[1])  # noqa: E731
             return Cx(f(v[0]), f(v[1]))
 
         vals = [{n: {tuple(c): cx(v) for c, v in ents} for n, ents in env.items()} for env in doc]
-        return ExpPool(sl, 0, values=vals)
+        return ExpPool(run, 0, values=vals)
 
 
 def _seq(t):
@@ -265,9 +297,17 @@ def _int(n):
     return str(n) if n >= 0 else f"(0 - {-n})"
 
 
-def mc_module(name, sl, pool):
-    lit_txt = "<<" + ", ".join(f'[nm |-> "{n}", v |-> {to_tla(Cx.of(v))}]' for n, v in sl.lits) + ">>"
-    zero_txt = "<<" + ", ".join(_seq(z) for z in sl.zeros) + ">>"
+def _set(xs):
+    return "{" + ", ".join(xs) + "}"
+
+
+def mc_module(name, run, pool):
+    lit_txt = "<<" + ", ".join(f'[nm |-> "{n}", v |-> {to_tla(Cx.of(LITS[n]))}]' for n in run.lits) + ">>"
+    zero_txt = "<<" + ", ".join(_seq(ZEROS[z]) for z in run.zeros) + ">>"
+    subs = []
+    for s in run.subs:
+        ids = [str(run.init_names.index(n) + 1) for n in s.use]
+        subs.append(f"[ops |-> {_set(json.dumps(o) for o in s.ops)}, ids |-> {_set(ids)}, idx |-> {_set(map(str, s.idx))}, maxnodes |-> {s.maxnodes}, maxrank |-> {s.maxrank}]")
     return f"""---- MODULE {name} ----
 EXTENDS Arity
 MC_Terminals == {pool.tla_terminals()}
@@ -275,13 +315,12 @@ MC_TermVal ==
   {pool.tla_termval()}
 MC_Lits == {lit_txt}
 MC_Zeros == {zero_txt}
-MC_IdxPool == <<{", ".join(map(str, sl.idx))}>>
-MC_OpSet == {{{", ".join(json.dumps(o) for o in sl.ops)}}}
+MC_Slices == <<{", ".join(subs)}>>
 ====
 """
 
 
-def mc_cfg(sl, pool, rule, invariants, maxnodes=None):
+def mc_cfg(run, pool, rule, invariants, sim=False):
     lines = [
         "CONSTANTS",
         "Terminals <- MC_Terminals",
@@ -289,27 +328,24 @@ def mc_cfg(sl, pool, rule, invariants, maxnodes=None):
         f"NEnv = {pool.nenv}",
         "Lits <- MC_Lits",
         "Zeros <- MC_Zeros",
-        "IdxPool <- MC_IdxPool",
-        "OpSet <- MC_OpSet",
-        f"MaxNodes = {maxnodes or sl.maxnodes}",
-        f"MaxRank = {sl.maxrank}",
-        f"MaxDim = {sl.maxdim}",
-        f"ComplexMode = {'TRUE' if sl.cm else 'FALSE'}",
+        "Slices <- MC_Slices",
+        "MaxDim = 2",
+        f"ComplexMode = {'TRUE' if run.cm else 'FALSE'}",
         f'ListTensorRule = "{rule}"',
         f"NGroups = {pool.lay.ngroups}",
-        f"NArgs = {sl.nargs}",
-        "SPECIFICATION Spec",
+        f"NArgs = {pool.lay.nargs}",
+        "SPECIFICATION SimSpec" if sim else "SPECIFICATION Spec",
     ]
     lines += [f"INVARIANT {i}" for i in invariants]
     return "\n".join(lines) + "\n"
 
 
-def run_tlc(sl, pool, rule, invariants, seed, simulate=None, maxnodes=None, timeout=1500):
-    name = "MC_Arity_" + sl.name.replace("-", "_")
+def run_tlc(run, pool, rule, invariants, seed, workers, timeout=1500):
+    name = "MC_Arity_" + run.name.replace("-", "_")
     kw = {}
-    if simulate:
-        kw = dict(simulate=f"num={max(1, simulate // TLC_WORKERS)}", depth=sl.depth or (sl.maxnodes + 1), seed=seed + 1)
-    return tlc.run(name, mc_cfg(sl, pool, rule, invariants, maxnodes), mc_text=mc_module(name, sl, pool), mc_name=name, workers=max(1, TLC_WORKERS // TLC_JOBS), timeout=timeout, env={"JAVA_TOOL_OPTIONS": JAVA}, **kw)
+    if run.simulate:
+        kw = dict(simulate=f"num={run.simulate}", depth=run.depth, seed=seed + 1)
+    return tlc.run(name, mc_cfg(run, pool, rule, invariants, sim=bool(run.simulate)), mc_text=mc_module(name, run, pool), mc_name=name, workers=workers, timeout=timeout, env={"JAVA_TOOL_OPTIONS": JAVA}, **kw)
 
 
 # ------------------------------------------------------------------------------------------------
@@ -332,40 +368,37 @@ class AEnv:
 
 
 class World:
-    """Real ufl objects of a slice: one Argument per number, coefficients, geometry, literals."""
+    """Real ufl objects of a run: Arguments (scalar and vector incarnation per number),
+    coefficients, geometry, literals, zeros; the environments keyed for vf/sem.py."""
 
-    def __init__(self, sl, pool):
+    def __init__(self, run, pool):
         import ufl
         from ufl.classes import ReferenceGrad, ReferenceValue
         from ufl.core.multiindex import Index
 
         from ..elements import LagrangeElement
 
-        self.ufl, self.sl, self.pool = ufl, sl, pool
+        self.ufl, self.run, self.pool = ufl, run, pool
         cell = ufl.triangle
         self.mesh = ufl.Mesh(LagrangeElement(cell, 1, (2,)))
-        argshape = {}
-        for n, s, r in sl.terms:
-            if r in ("arg0", "arg1", "rval0", "rval1"):
-                argshape[ROLE_NUM[r]] = s
-        for n, s, r in sl.terms:
-            if r in ("grad0", "grad1", "rgrad0"):
-                argshape.setdefault(ROLE_NUM[r], s[:-1])
-        self.args = {k: ufl.Argument(ufl.FunctionSpace(self.mesh, LagrangeElement(cell, 1, tuple(sh))), k) for k, sh in sorted(argshape.items())}
-        self.allargs = tuple(self.args[k] for k in range(sl.nargs))
-        self.terms = []
-        self.keys = []  # evaluator key of each terminal: (object, derivs or None(per-component), ref)
-        for n, s, r in sl.terms:
+
+        def space(shape, deg=1):
+            return ufl.FunctionSpace(self.mesh, LagrangeElement(cell, deg, tuple(shape)))
+
+        self.args = {n: ufl.Argument(space(TERMS[n][0]), ROLE_NUM[TERMS[n][1]]) for n in ("v", "u", "vv", "uu")}
+        self.obj = {}
+        for n in run.terms:
+            s, r, base = TERMS[n]
             if r in ("arg0", "arg1"):
-                o = self.args[ROLE_NUM[r]]
+                o = self.args[n]
             elif r in ("grad0", "grad1"):
-                o = ufl.grad(self.args[ROLE_NUM[r]])
-            elif r in ("rval0", "rval1"):
-                o = ReferenceValue(self.args[ROLE_NUM[r]])
+                o = ufl.grad(self.args[base])
+            elif r == "rval0":
+                o = ReferenceValue(self.args[base])
             elif r == "rgrad0":
-                o = ReferenceGrad(ReferenceValue(self.args[0]))
+                o = ReferenceGrad(ReferenceValue(self.args[base]))
             elif r == "coef":
-                o = ufl.Coefficient(ufl.FunctionSpace(self.mesh, LagrangeElement(cell, 2, tuple(s))))
+                o = ufl.Coefficient(space(s, 2))
             elif r == "geom":
                 o = ufl.SpatialCoordinate(self.mesh)
             elif r == "geoms":
@@ -374,27 +407,33 @@ class World:
                 raise MachineryError(f"unknown role {r}")
             if tuple(o.ufl_shape) != tuple(s):
                 raise MachineryError(f"terminal {n}: shape {o.ufl_shape} declared {s}")
-            self.terms.append(o)
-        self.lits = [ufl.as_ufl(_pynum(v)) for _, v in sl.lits]
-        self.zeros = [ufl.zero(*z) if z else ufl.zero() for z in sl.zeros]
-        self.idx = {n: Index() for n in sorted(sl.idx)}
-        self.init = self.terms + self.lits + self.zeros
+            self.obj[n] = o
+        self.init = [self.obj[n] for n in run.terms] + [ufl.as_ufl(_pynum(LITS[n])) for n in run.lits] + [ufl.zero(*ZEROS[z]) if ZEROS[z] else ufl.zero() for z in run.zeros]
+        self.idx = {n: Index() for n in IDX}
+        # "all the form's arguments" of a slice: per number the incarnation the slice uses
+        self.allargs = []
+        for s in run.subs:
+            per = {}
+            for n in s.use:
+                if n in TERMS and TERMS[n][1] in ROLE_NUM:
+                    per.setdefault(ROLE_NUM[TERMS[n][1]], self.args[TERMS[n][2]])
+            self.allargs.append(tuple(per.get(k, self.args["vu"[k]]) for k in range(NARGS)))
         self.envs = []
         for e in range(pool.nenv):
             env = AEnv()
-            for (n, s, r), o in zip(sl.terms, self.terms):
+            for n in run.terms:
+                s, r, base = TERMS[n]
                 tab = pool.values[e][n]
                 if r in ("grad0", "grad1"):
-                    a = self.args[ROLE_NUM[r]]
                     for j in range(2):
-                        env.t[(a, (j,), False)] = {c[:-1]: v for c, v in tab.items() if c[-1] == j}
-                elif r in ("rval0", "rval1"):
-                    env.t[(self.args[ROLE_NUM[r]], (), True)] = tab
+                        env.t[(self.args[base], (j,), False)] = {c[:-1]: v for c, v in tab.items() if c[-1] == j}
+                elif r == "rval0":
+                    env.t[(self.args[base], (), True)] = tab
                 elif r == "rgrad0":
                     for j in range(2):
-                        env.t[(self.args[0], (("X", j),), True)] = {c[:-1]: v for c, v in tab.items() if c[-1] == j}
+                        env.t[(self.args[base], (("X", j),), True)] = {c[:-1]: v for c, v in tab.items() if c[-1] == j}
                 else:
-                    env.t[(o, (), False)] = tab
+                    env.t[(self.obj[n], (), False)] = tab
             self.envs.append(env)
         self.cache = {}
 
@@ -412,17 +451,45 @@ def _pynum(v):
 
 
 def apply_op(w, op, args, mi):
+    """One constructor call of the specification through ufl's public API."""
     from ufl.classes import IndexSum, MultiIndex
 
-    from .. import replay
-
+    ufl = w.ufl
+    a = args[0]
+    b = args[1] if len(args) > 1 else None
+    if op == "add":
+        return a + b
+    if op == "sub":
+        return a - b
+    if op == "neg":
+        return -a
+    if op == "mul":
+        return a * b
+    if op == "div":
+        return a / b
+    if op == "pow":
+        return a**b
+    if op == "abs":
+        return abs(a)
+    if op in ("conj", "real", "imag", "sqrt", "sign"):
+        return getattr(ufl, op)(a)
+    if op == "index":
+        return a[w.mi(mi)]
     if op == "isum":
-        return IndexSum(args[0], MultiIndex((w.idx[mi[0]],)))
+        return IndexSum(a, MultiIndex((w.idx[mi[0]],)))
+    if op == "as_tensor":
+        return ufl.as_tensor(a, tuple(w.idx[m] for m in mi))
+    if op == "list":
+        return ufl.as_tensor(list(args))
+    if op in ("dot", "inner", "outer", "lt", "gt", "le", "ge", "eq", "ne"):
+        return getattr(ufl, op)(a, b)
+    if op == "cond":
+        return ufl.conditional(args[0], args[1], args[2])
     if op == "restrict":
-        return args[0]("+")
+        return a("+")
     if op == "variable":
-        return w.ufl.variable(args[0])
-    return replay.apply_op(w, op, args, mi)
+        return ufl.variable(a)
+    raise MachineryError(f"replay: unknown op {op}")
 
 
 def build(w, prog):
@@ -531,7 +598,9 @@ def _sub(a, b):
 
 
 def lin_class(vals, lay, n):
-    """('yes'|'no'|'unknown', '-'|'affine'|'nonlinear') of a scalar in argument n."""
+    """('yes'|'no'|'unknown', '-'|'affine'|'nonlinear'|'unknown') of a scalar in argument n:
+    t(0)=0, t(2v)=2t(v), t(-v)=-t(v), t(v+w)=t(v)+t(w), t(iv)=(-)i t(v) in every group; the kind of
+    a 'no' comes from the same tests applied to t - t(0)."""
     im = Cx(0, -1) if n == 0 else Cx(0, 1)
     lin, aff = set(), set()
     for g in range(lay.ngroups):
@@ -551,10 +620,10 @@ def lin_class(vals, lay, n):
 
 # ---- one term ----------------------------------------------------------------------------------
 
-SOUND_HANDLERS = {"sum", "product", "division", "indexed", "index_sum", "component_tensor", "terminal", "argument", "multi_index"}
+SOUND_HANDLERS = {"sum", "product", "division", "indexed", "index_sum", "component_tensor"}
 
 
-def culprit(e, kind):
+def culprit(e):
     """Structural class of an accepted non-multilinear integrand (for the fingerprint)."""
     from ufl.algorithms.analysis import extract_arguments
     from ufl.classes import ListTensor, Zero
@@ -572,17 +641,13 @@ def culprit(e, kind):
     return "+".join(sorted(names)) or "algebra"
 
 
-def root_handler(e):
-    return e._ufl_handler_name_
-
-
-def process(w, rec, want_cfd=False):
+def process(w, rec, want_cfd=0):
     """Everything observed about one dumped term.  Returns a dict (JSON-able)."""
     from ufl.algorithms.analysis import extract_arguments
     from ufl.algorithms.comparison_checker import ComplexComparisonError
 
-    sl = w.sl
-    out = {"prog": rec["prog"], "status": "ok"}
+    cm = w.run.cm
+    out = {"prog": rec["prog"], "sl": rec["sl"], "status": "ok"}
     st, obj = build(w, rec["prog"])
     if st == "raise":
         out["status"] = "build-refused:" + type(obj).__name__
@@ -590,8 +655,9 @@ def process(w, rec, want_cfd=False):
     if obj.ufl_shape != () or obj.ufl_free_indices != ():
         out["status"] = "not-scalar"
         return out
+    out["str"] = str(obj)[:160]
     try:
-        e = pipeline(obj, sl.cm)
+        e = pipeline(obj, cm)
     except ComplexComparisonError:
         out["status"] = "pipeline-refused:ComplexComparisonError"
         return out
@@ -599,11 +665,12 @@ def process(w, rec, want_cfd=False):
         out["status"] = "pipeline-refused:ValueError:" + str(ex)[:40]
         return out
     own = tuple(extract_arguments(obj))
+    allargs = w.allargs[rec["sl"] - 1]
     out["m"] = [a.number() for a in own]
-    fas = [own] + ([w.allargs] if len(own) != len(w.allargs) else [])
+    fas = [own] + ([allargs] if len(own) != len(allargs) and all(a in allargs for a in own) else [])
     out["real"] = []
     for fa in fas:
-        v, msg = real_verdict(e, fa, sl.cm)
+        v, msg = real_verdict(e, fa, cm)
         out["real"].append({"fa": [a.number() for a in fa], "v": v, "msg": msg})
     out["nodes"] = abstract(e)
     try:
@@ -611,15 +678,13 @@ def process(w, rec, want_cfd=False):
     except Exception as ex:  # noqa: BLE001 - evaluator limitation: never a verdict
         out["status"] = "eval-unsupported:" + type(ex).__name__ + ":" + str(ex)[:60]
         return out
-    lay = w.pool.lay
-    out["sem"] = [list(lin_class(vals, lay, n)) for n in range(sl.nargs)]
+    out["sem"] = [list(lin_class(vals, w.pool.lay, n)) for n in range(NARGS)]
     out["zero"] = all(v is not None and v.is_zero() for v in vals)
-    out["culprit"] = culprit(e, "")
-    out["root"] = root_handler(e)
-    out["str"] = str(obj)[:160]
+    out["culprit"] = culprit(e)
+    out["root"] = e._ufl_handler_name_
     out["lowered"] = str(e)[:200]
     if want_cfd:
-        out["cfd"] = cfd_verdict(w, obj, rec["prog"], sl.cm, want_cfd == 2)
+        out["cfd"] = cfd_verdict(w, obj, rec["prog"], cm, want_cfd == 2)
     return out
 
 
@@ -646,36 +711,31 @@ def cfd_verdict(w, obj, prog, cm, pullbacks):
         return "other:" + type(ex).__name__
 
 
-MUTANTS = {}
-
-
 def _mutant_sum_union():
     """selftest: `sum` unions the arities of its operands instead of demanding equality."""
     from ufl.algorithms import check_arities
+    from ufl.corealg.multifunction import MultiFunction
 
     def bad_sum(self, o, a, b):
         return tuple(sorted(set(a + b), key=lambda x: (x[0].number(), x[0].part())))
 
     check_arities.ArityChecker.sum = bad_sum
-    from ufl.corealg.multifunction import MultiFunction
-
     MultiFunction._handlers_cache.pop(check_arities.ArityChecker, None)
 
 
-MUTANTS["sum-union"] = _mutant_sum_union
+MUTANTS = {"sum-union": _mutant_sum_union}
 
 
 def work(job):
-    """Worker: replay a chunk of records of one slice.  job = (slice json, pool json, records,
-    cfd stride, mutant)."""
-    sj, pj, recs, stride, mutant = job
+    """Worker: replay a chunk of records of one run.  job = (run json, pool json, records, cfd
+    stride, mutant)."""
+    rj, pj, recs, stride, mutant = job
     if mutant:
         MUTANTS[mutant]()
-    sl = Slice.from_json(sj)
-    pool = ExpPool.from_json(sl, pj)
-    w = World(sl, pool)
+    run = Run.from_json(rj)
+    w = World(run, ExpPool.from_json(run, pj))
     out = []
-    for k, rec in enumerate(recs):
+    for rec in recs:
         want = 0
         if stride and rec["_i"] % stride == 0:
             want = 2 if (rec["_i"] // stride) % 2 else 1
@@ -714,21 +774,6 @@ class Collector:
             self.ctx.violation(fp, what, replay)
 
 
-def trace_verdicts(terms):
-    """ArityTrace.tla on the abstracted real DAGs: {id: (as coded, intended)}."""
-    if not terms:
-        return {}, None
-    cfg = "SPECIFICATION Spec\n"
-    res = tlc.run("ArityTrace", cfg, workers=1, timeout=1500, extra_files={"terms.json": json.dumps(terms)}, env={"JAVA_TOOL_OPTIONS": JAVA})
-    if res.outcome != "ok":
-        tail = "\n".join(res.stdout.splitlines()[-30:])
-        raise MachineryError(f"ArityTrace: {res.outcome}\n{tail}")
-    table = tlc.decode_prints(res)
-    if not table:
-        raise MachineryError("ArityTrace printed no table")
-    return {row["id"]: (row["c"], row["i"]) for row in table[0]}, res
-
-
 class TermTable:
     """The distinct (DAG, form arguments, mode) triples handed to the real checker."""
 
@@ -750,23 +795,40 @@ class TermTable:
                 r["tids"].append(tid)
 
 
-def judge(col, sl, pool, recs, results, tv=None, ctx=None):
-    """Apply the property and the two bindings to the replayed terms of one slice.
+def trace_verdicts(terms):
+    """ArityTrace.tla on the abstracted real DAGs: {id: (as coded, intended)}."""
+    if not terms:
+        return {}, None
+    cfg = "SPECIFICATION Spec\n"
+    res = tlc.run("ArityTrace", cfg, workers=1, timeout=1500, extra_files={"terms.json": json.dumps(terms)}, env={"JAVA_TOOL_OPTIONS": JAVA})
+    if res.outcome != "ok":
+        tail = "\n".join(res.stdout.splitlines()[-30:])
+        raise MachineryError(f"ArityTrace: {res.outcome}\n{tail}")
+    table = tlc.decode_prints(res)
+    if not table:
+        raise MachineryError("ArityTrace printed no table")
+    return {row["id"]: (row["c"], row["i"]) for row in table[0]}, res
+
+
+def judge(col, run, pool, recs, results, tv=None, ctx=None):
+    """Apply the property and the two bindings to the replayed terms of one run.
     tv: verdicts of ArityTrace.tla by term id (computed here when not given)."""
     if tv is None:
         tt = TermTable()
-        tt.add(results, sl.cm)
+        tt.add(results, run.cm)
         tv, tres = trace_verdicts(tt.terms)
         if ctx is not None and tres is not None:
             ctx.add_tlc(tres)
     follows = {"as_coded": 0, "intended": 0}
+    mode = " complex" if run.cm else ""
     for rec, r in zip(recs, results):
+        sname = run.subs[rec["sl"] - 1].name
         col.count("terms_replayed")
         if r["status"] != "ok":
             col.count("skipped:" + r["status"].split(":")[0])
             continue
-        rdoc = {"slice": sl.to_json(), "pool": pool.to_json(), "prog": r["prog"]}
-        prog_txt = f"[{sl.name}{' complex' if sl.cm else ''}] {r['str']}"
+        rdoc = {"run": run.to_json(), "pool": pool.to_json(), "sl": rec["sl"], "prog": r["prog"]}
+        prog_txt = f"[{sname}{mode}] {r['str']}"
         for rv, tid in zip(r["real"], r["tids"]):
             fa = rv["fa"]
             acc = rv["v"] == "accept"
@@ -777,7 +839,7 @@ def judge(col, sl, pool, recs, results, tv=None, ctx=None):
                 kind = "affine" if all(c[1] == "affine" for _, c in bad) else "nonlinear"
                 fp = f"C14:accepts-{kind}:{r['culprit']}"
                 col.count("violating_terms:" + fp)
-                col.violation(fp, f"{prog_txt} (lowered: {r['lowered']}) is accepted with form arguments {fa} {'in complex mode ' if sl.cm else ''}but is {kind} in argument(s) {[n for n, _ in bad]}", dict(rdoc, fa=fa))
+                col.violation(fp, f"{prog_txt} (lowered: {r['lowered']}) is accepted with form arguments {fa}{' in complex mode' if run.cm else ''} but is {kind} in argument(s) {[n for n, _ in bad]}", dict(rdoc, fa=fa))
             elif acc and any(c[0] == "unknown" for c in classes):
                 col.count("accepted_semantics_undefined")
             elif acc:
@@ -828,15 +890,10 @@ def judge(col, sl, pool, recs, results, tv=None, ctx=None):
 INVS = ["WellFormed", "Sound", "RejectsNonlinear", "DumpInv"]
 
 
-def enumerate_slice(ctx, sl, pool):
-    res = run_tlc(sl, pool, "intended", INVS, ctx.seed, simulate=sl.simulate)
-    return res
-
-
 def records_of(res):
     recs, seen = [], set()
     for rec in tlc.decode_prints(res):
-        key = json.dumps(rec["prog"])
+        key = (rec["sl"], json.dumps(rec["prog"]))
         if key in seen:
             continue
         seen.add(key)
@@ -845,13 +902,13 @@ def records_of(res):
     return recs
 
 
-def replay_records(sl, pool, recs, executor, stride, mutant=None):
-    sj, pj = sl.to_json(), pool.to_json()
+def replay_records(run, pool, recs, executor, stride, mutant=None):
+    rj, pj = run.to_json(), pool.to_json()
     if executor is None:
-        return work((sj, pj, recs, stride, mutant))
-    n = max(1, min(PY_WORKERS * 2, len(recs) // 200 + 1))
+        return work((rj, pj, recs, stride, mutant))
+    n = max(1, min(PY_WORKERS * 2, len(recs) // 300 + 1))
     chunks = [recs[k::n] for k in range(n)]
-    futs = [executor.submit(work, (sj, pj, ch, stride, mutant)) for ch in chunks]
+    futs = [executor.submit(work, (rj, pj, ch, stride, mutant)) for ch in chunks]
     out = {}
     for f in futs:
         for r in f.result():
@@ -859,20 +916,14 @@ def replay_records(sl, pool, recs, executor, stride, mutant=None):
     return [out[k] for k in range(len(recs))]
 
 
-def counterexample_prog(res, ninit):
-    """Program of the last state of a TLC counterexample (the spec has the single variable store)."""
-    import re
-
+def counterexample(res, run):
+    """(slice index, program) of the last state of a TLC counterexample."""
     blocks = re.split(r"^State \d+: <[^\n]*>$", res.stdout, flags=re.M)
     if len(blocks) < 2:
         raise MachineryError("TLC reported an invariant violation without a trace")
-    text = blocks[-1].split("\n\n")[0].strip()
-    text = text[2:].strip() if text.startswith("/\\") else text
-    name, _, val = text.partition("=")
-    if name.strip() != "store":
-        raise MachineryError(f"unexpected state text {text[:80]!r}")
-    store = tlc.parse_value(val.strip())
-    return [{"op": n["op"], "args": list(n["args"]), "mi": list(n["mi"])} for n in store[ninit:]]
+    st = tlc.parse_state(blocks[-1].split("\n\n")[0].strip())
+    ninit = len(run.init_names)
+    return st["sl"], [{"op": n["op"], "args": list(n["args"]), "mi": list(n["mi"])} for n in st["store"][ninit:]]
 
 
 def run(ctx, args):
@@ -881,51 +932,53 @@ def run(ctx, args):
     from concurrent.futures import ProcessPoolExecutor, ThreadPoolExecutor
 
     ctx.rule = (
-        "TLC enumerates (exhaustively per slice, -simulate for the deep slices) every integrand buildable from the "
-        "slice's pool {test function, trial function (scalar or vector, also under grad / reference value), "
+        "TLC enumerates (exhaustively per slice; random behaviours for the deep slices) every integrand buildable "
+        "from the slice's pool {test function, trial function (scalar or vector, also under grad / reference value), "
         "coefficients, geometry, literals 1 2 1.5 i, zero} with its operator alphabet up to the node bound, with "
         "the model checker's verdict (both list-tensor rules) and the semantic class per argument; every distinct "
         "program that is a scalar integrand is replayed through the public API + the real pipeline + "
         "check_integrand_arity (own arguments, and all arguments of the slice), evaluated exactly in the "
         "experiment environments, and its real DAG is re-judged by the model; non-trivial = mentions an argument"
     )
-    ctx.assume("linear in argument n is decided on samples: 2 groups of generic distinct exact values per slice, each with the variations 0, 2v, -v, w, v+w (iv in complex mode) of one argument at a time; a term is only called affine/nonlinear when an identity definitely fails on exact values")
-    ctx.assume("the exact evaluator vf/sem.py reads the meaning of the real lowered expression; its classes are compared with the classes TLC derives from UFLBuild's predicted values on every term")
-    ctx.assume("values undefined in a sample (division by zero, irrational roots, order comparison of complex numbers) make the class 'unknown'; such terms are counted, not judged")
+    ctx.assume("linear in argument n is decided on samples: 2 groups of generic distinct exact values per run, each with the variations 0, 2v, -v, w, v+w (iv in complex mode) of one argument at a time; a term is only called affine/nonlinear when an identity definitely fails on exact values")
+    ctx.assume("the exact evaluator vf/sem.py reads the meaning of the real lowered expression; its classes are compared with the classes TLC derives from the specification's own value semantics on every term")
+    ctx.assume("values undefined in a sample (division by zero, irrational roots, order comparison of complex numbers, numerators beyond CQ's range) make the class 'unknown'; such terms are counted, not judged")
     ctx.assume("arguments and coefficients live in continuous Lagrange spaces on an affine triangle mesh; restrictions do not change values")
     sls = slices(ctx.tier)
     only = os.environ.get("VERIF_SLICES")
     if only:
         sls = [s for s in sls if s.name in only.split(",")]
+    runs = runs_of(sls)
     col = Collector(ctx)
     stride = 6 if ctx.tier == "quick" else 10
-    pools = {s.name: ExpPool(s, ctx.seed) for s in sls}
+    pools = {r.name: ExpPool(r, ctx.seed) for r in runs}
     t0 = time.time()
     total_follow = {"as_coded": 0, "intended": 0}
     done = []
     tt = TermTable()
+    per = max(1, TLC_WORKERS // TLC_JOBS)
     with ProcessPoolExecutor(PY_WORKERS) as ex, ThreadPoolExecutor(TLC_JOBS) as tlcq:
-        # TLC_JOBS TLC processes at a time (TLC_WORKERS // TLC_JOBS workers each); finished slices
-        # are replayed in the process pool meanwhile
+        # TLC_JOBS TLC processes at a time; finished runs are replayed in the process pool meanwhile
+        order = sorted(runs, key=lambda r: bool(r.simulate))  # exhaustive runs first
+        futs = [(r, tlcq.submit(run_tlc, r, pools[r.name], "intended", INVS, ctx.seed, per)) for r in order]
         cex_f = tlcq.submit(as_coded_counterexample, ctx)
-        futs = [(s, tlcq.submit(enumerate_slice, ctx, s, pools[s.name])) for s in sls]
-        for sl, fut in futs:
-            pool = pools[sl.name]
+        for rn, fut in futs:
+            pool = pools[rn.name]
             res = fut.result()
             ctx.add_tlc(res)
             if res.outcome == "invariant" and res.violated in ("Sound", "RejectsNonlinear"):
-                handle_intended_failure(ctx, col, sl, pool, res)
+                handle_intended_failure(ctx, col, rn, pool, res)
                 continue
             if res.outcome != "ok":
                 tail = "\n".join(res.stdout.splitlines()[-30:])
-                raise MachineryError(f"TLC on slice {sl.name}: {res.outcome} {res.violated}\n{tail}")
+                raise MachineryError(f"TLC run {rn.name}: {res.outcome} {res.violated}\n{tail}")
             recs = records_of(res)
             if not recs:
-                raise MachineryError(f"slice {sl.name}: TLC produced no integrands")
-            results = replay_records(sl, pool, recs, ex, stride)
-            tt.add(results, sl.cm)
-            done.append((sl, pool, res, recs, results))
-            print(f"  slice {sl.name}: {res.distinct} states ({res.mode}, {res.wall:.0f}s), {len(recs)} integrands replayed, t={time.time() - t0:.0f}s", flush=True)
+                raise MachineryError(f"run {rn.name}: TLC produced no integrands")
+            results = replay_records(rn, pool, recs, ex, stride)
+            tt.add(results, rn.cm)
+            done.append((rn, pool, res, recs, results))
+            print(f"  run {rn.name}: {res.distinct} states ({res.mode}, {res.wall:.0f}s), {len(recs)} integrands replayed, t={time.time() - t0:.0f}s", flush=True)
         cex = cex_f.result()
     # spec <- code: the handlers of ArityRules.tla on every DAG the real checker saw (one TLC run)
     tv, tres = trace_verdicts(tt.terms)
@@ -933,21 +986,27 @@ def run(ctx, args):
         ctx.add_tlc(tres)
         ctx.cov["dags_judged_by_ArityTrace"] = len(tt.terms)
     print(f"  ArityTrace: {len(tt.terms)} distinct DAGs, t={time.time() - t0:.0f}s", flush=True)
-    for sl, pool, res, recs, results in done:
-        follows = judge(col, sl, pool, recs, results, tv)
+    for rn, pool, res, recs, results in done:
+        follows = judge(col, rn, pool, recs, results, tv)
         for k in follows:
             total_follow[k] += follows[k]
-        nontrivial = 0
+        per_sub = {}
         for rec, r in zip(recs, results):
             ctx.traces(1)
+            st = per_sub.setdefault(rn.subs[rec["sl"] - 1].name, {"integrands": 0, "mention_arguments": 0, "accepted": 0})
+            st["integrands"] += 1
             if r["status"] == "ok":
-                ctx.evaluated(pool.nenv + 2 * len(r["real"]) + sl.nargs)
+                ctx.evaluated(pool.nenv + 2 * len(r["real"]) + NARGS)
+                st["accepted"] += r["real"][0]["v"] == "accept"
                 if r["m"]:
-                    nontrivial += 1
-                    ctx.distinct(sl.name + "|" + json.dumps(r["prog"]))
+                    st["mention_arguments"] += 1
+                    ctx.distinct(f"{rn.name}|{rec['sl']}|" + json.dumps(r["prog"]))
                 if len(ctx.cov["samples"]) < 5 and r["m"] and len(r["prog"]) >= 2 and (len(ctx.cov["samples"]) % 2 == 0) == (r["real"][0]["v"] == "accept"):
-                    ctx.sample({"slice": sl.name, "complex_mode": sl.cm, "integrand": r["str"], "real_verdict": r["real"][0]["v"], "model_as_coded": rec["acc"]["c"], "model_intended": rec["acc"]["i"], "semantic_class_per_argument": r["sem"]})
-        ctx.cov.setdefault("slices", []).append({"slice": sl.name, "complex_mode": sl.cm, "tlc_states": res.distinct, "integrands": len(recs), "mention_arguments": nontrivial, "mode": res.mode})
+                    ctx.sample({"slice": rn.subs[rec["sl"] - 1].name, "complex_mode": rn.cm, "integrand": r["str"], "real_verdict": r["real"][0]["v"], "model_as_coded": rec["acc"]["c"], "model_intended": rec["acc"]["i"], "semantic_class_per_argument": r["sem"]})
+        for s in rn.subs:
+            if s.name not in per_sub:
+                raise MachineryError(f"slice {s.name} produced no integrand (vacuous)")
+        ctx.cov.setdefault("runs", []).append({"run": rn.name, "complex_mode": rn.cm, "mode": res.mode, "tlc_states": res.distinct, "slices": per_sub})
     report_counterexample(ctx, col, cex)
     ctx.cov["real_checker_follows"] = total_follow
     # ---- machinery verdicts (after the violations have been reported) ----
@@ -973,57 +1032,59 @@ def run(ctx, args):
 
 # ---- the expected failure of the rule as coded ----------------------------------------------------
 
-CEX_SLICE = Slice("cex-list-r", [SV, F, C], {"list", "dot", "mul"}, 2, False, lits=["one"])
+CEX_RUN = Run("cex-r", False, [Slice("cex-list-r", ["v", "f", "c", "one"], {"list", "dot", "mul"}, 2, False)])
 
 
 def as_coded_counterexample(ctx):
-    """TLC alone, ListTensorRule = "as_coded": Sound must fail; returns (slice, pool, result)."""
-    pool = ExpPool(CEX_SLICE, ctx.seed)
-    res = run_tlc(CEX_SLICE, pool, "as_coded", ["Sound"], ctx.seed)
-    return CEX_SLICE, pool, res
+    """TLC alone, ListTensorRule = "as_coded": Sound must fail; returns (run, pool, result)."""
+    pool = ExpPool(CEX_RUN, ctx.seed)
+    res = run_tlc(CEX_RUN, pool, "as_coded", ["Sound"], ctx.seed, 1)
+    return CEX_RUN, pool, res
+
+
+def _bad_args(r, rv):
+    return [n for n in rv["fa"] if r["sem"][n][0] == "no"]
 
 
 def report_counterexample(ctx, col, cex):
-    sl, pool, res = cex
+    rn, pool, res = cex
     ctx.add_tlc(res)
     if res.outcome != "invariant" or res.violated != "Sound":
         tail = "\n".join(res.stdout.splitlines()[-20:])
         raise MachineryError(f'Sound was expected to fail with ListTensorRule = "as_coded" but TLC says {res.outcome} {res.violated}\n{tail}')
-    prog = counterexample_prog(res, len(sl.terms) + len(sl.lits) + len(sl.zeros))
-    w = World(sl, pool)
-    r = process(w, {"prog": prog})
+    sl, prog = counterexample(res, rn)
+    r = process(World(rn, pool), {"prog": prog, "sl": sl})
     if r["status"] != "ok":
         raise MachineryError(f"counterexample {prog} could not be replayed: {r['status']}")
     rv = r["real"][0]
-    bad = [n for n in rv["fa"] if r["sem"][n][0] == "no"]
+    bad = _bad_args(r, rv)
     ctx.cov["tlc_counterexample_as_coded"] = {"program": prog, "integrand": r["str"], "real_verdict": rv["v"], "semantic_class": r["sem"]}
-    print(f"  TLC counterexample to Sound (as coded): {r['str']} -> real checker: {rv['v']}, semantic classes {r['sem']}", flush=True)
+    print(f"  TLC counterexample to Sound (list tensor rule as coded): {r['str']} -> real checker: {rv['v']}, semantic classes {r['sem']}", flush=True)
     ctx.traces(1)
     if rv["v"] == "accept" and bad:
         kind = "affine" if all(r["sem"][n][1] == "affine" for n in bad) else "nonlinear"
-        col.violation(f"C14:accepts-{kind}:{r['culprit']}", f"[TLC counterexample] {r['str']} is accepted but {kind} in argument(s) {bad}", {"slice": sl.to_json(), "pool": pool.to_json(), "prog": prog, "fa": rv["fa"]})
+        col.violation(f"C14:accepts-{kind}:{r['culprit']}", f"[TLC counterexample] {r['str']} is accepted but {kind} in argument(s) {bad}", {"run": rn.to_json(), "pool": pool.to_json(), "sl": sl, "prog": prog, "fa": rv["fa"]})
     elif rv["v"] == "reject":
         col.count("as_coded_counterexample_rejected_by_real_code(code_follows_intended_rule)")
     else:
         raise MachineryError(f"counterexample {r['str']}: real {rv['v']} but the real object is {r['sem']}")
 
 
-def handle_intended_failure(ctx, col, sl, pool, res):
+def handle_intended_failure(ctx, col, rn, pool, res):
     """Sound / RejectsNonlinear failed for the INTENDED rule: either another handler is unsound
     (then the real checker accepts a term the real evaluation shows non-multilinear: a violation)
     or the specification is wrong (MachineryError)."""
-    prog = counterexample_prog(res, len(sl.terms) + len(sl.lits) + len(sl.zeros))
-    w = World(sl, pool)
-    r = process(w, {"prog": prog})
+    sl, prog = counterexample(res, rn)
+    r = process(World(rn, pool), {"prog": prog, "sl": sl})
     if r["status"] == "ok":
         for rv in r["real"]:
-            bad = [n for n in rv["fa"] if r["sem"][n][0] == "no"]
+            bad = _bad_args(r, rv)
             if rv["v"] == "accept" and bad:
                 kind = "affine" if all(r["sem"][n][1] == "affine" for n in bad) else "nonlinear"
-                col.violation(f"C14:accepts-{kind}:{r['culprit']}", f"[TLC counterexample, intended rule] {r['str']} accepted but {kind} in {bad}", {"slice": sl.to_json(), "pool": pool.to_json(), "prog": prog, "fa": rv["fa"]})
+                col.violation(f"C14:accepts-{kind}:{r['culprit']}", f"[TLC counterexample, intended rule] {r['str']} accepted but {kind} in {bad}", {"run": rn.to_json(), "pool": pool.to_json(), "sl": sl, "prog": prog, "fa": rv["fa"]})
                 return
     tail = "\n".join(res.stdout.splitlines()[-30:])
-    raise MachineryError(f"slice {sl.name}: {res.violated} fails for the intended rule on {prog} and the real code does not reproduce it ({r.get('status')}, {r.get('real')}, {r.get('sem')})\n{tail}")
+    raise MachineryError(f"run {rn.name}: {res.violated} fails for the intended rule on {prog} and the real code does not reproduce it ({r.get('status')}, {r.get('real')}, {r.get('sem')})\n{tail}")
 
 
 # ------------------------------------------------------------------------------------------------
@@ -1033,19 +1094,17 @@ def handle_intended_failure(ctx, col, sl, pool, res):
 
 def replay(ctx, doc):
     r = doc["replay"]
-    sl = Slice.from_json(r["slice"])
-    pool = ExpPool.from_json(sl, r["pool"])
-    w = World(sl, pool)
-    res = process(w, {"prog": r["prog"]})
-    print(f"replay C14: [{sl.name}{' complex' if sl.cm else ''}] {res.get('str')}  status={res['status']}")
+    rn = Run.from_json(r["run"])
+    pool = ExpPool.from_json(rn, r["pool"])
+    res = process(World(rn, pool), {"prog": r["prog"], "sl": r["sl"]})
+    print(f"replay C14: [{rn.subs[r['sl'] - 1].name}{' complex' if rn.cm else ''}] {res.get('str')}  status={res['status']}")
     if res["status"] != "ok":
         return
     print(f"  handed to the checker: {res['lowered']}")
     for rv in res["real"]:
         classes = {n: res["sem"][n] for n in rv["fa"]}
         print(f"  form arguments {rv['fa']}: check_integrand_arity -> {rv['v']} {rv['msg']}; semantic class per argument {classes}")
-        bad = [n for n in rv["fa"] if res["sem"][n][0] == "no"]
-        if rv["v"] == "accept" and bad and rv["fa"] == r.get("fa", rv["fa"]):
+        if rv["v"] == "accept" and _bad_args(res, rv) and rv["fa"] == r.get("fa", rv["fa"]):
             ctx.violation(doc["fingerprint"], doc["what"], r)
 
 
@@ -1055,9 +1114,12 @@ def replay(ctx, doc):
 
 
 def selftest(ctx):
-    sl = Slice("selftest-r", [SV, SU, F, C], {"list", "dot", "mul", "add"}, 2, False, lits=["one"])
-    pool = ExpPool(sl, ctx.seed)
-    res = run_tlc(sl, pool, "intended", INVS, ctx.seed)
+    import copy
+    from concurrent.futures import ProcessPoolExecutor
+
+    rn = Run("selftest-r", False, [Slice("selftest-r", ["v", "u", "f", "c", "one"], {"list", "dot", "mul", "add"}, 2, False)])
+    pool = ExpPool(rn, ctx.seed)
+    res = run_tlc(rn, pool, "intended", INVS, ctx.seed, 2)
     ctx.add_tlc(res)
     tlc.require_ok(res, "selftest slice")
     recs = records_of(res)
@@ -1065,21 +1127,19 @@ def selftest(ctx):
 
     # 0. baseline: only the known list-tensor defect (or nothing, if the code has been repaired)
     col = Collector()
-    results = replay_records(sl, pool, recs, None, 0)
-    judge(col, sl, pool, recs, results)
+    results = replay_records(rn, pool, recs, None, 0)
+    judge(col, rn, pool, recs, results)
     fps = {fp for fp, _ in col.violations}
     outcomes["baseline has no binding failure"] = not col.binding and not col.sembinding
     outcomes["baseline violations are list-tensor only"] = fps <= {"C14:accepts-affine:list_tensor-constant-component"}
 
     # 1. corrupted semantic verdict of the model
-    import copy
-
     recs2 = copy.deepcopy(recs)
     k = next(i for i, (rc, r) in enumerate(zip(recs2, results)) if r["status"] == "ok" and rc["sem"][0]["cls"] == "yes" and r["m"])
     recs2[k]["sem"][0]["cls"] = "no"
     recs2[k]["sem"][0]["kind"] = "affine"
     col = Collector()
-    judge(col, sl, pool, recs2, results)
+    judge(col, rn, pool, recs2, results)
     outcomes["corrupted semantic class is rejected"] = len(col.sembinding) == 1
 
     # 2. corrupted observation of the real verdict
@@ -1087,10 +1147,10 @@ def selftest(ctx):
     k = next(i for i, r in enumerate(res2) if r["status"] == "ok" and r["real"][0]["v"] == "reject" and r["m"])
     res2[k]["real"][0]["v"] = "accept"
     col = Collector()
-    judge(col, sl, pool, recs, res2)
+    judge(col, rn, pool, recs, res2)
     outcomes["corrupted real verdict is rejected by the model binding"] = len(col.binding) == 1
 
-    # 3. corrupted DAG handed to the model (a sum node relabelled as a product)
+    # 3. corrupted DAG handed to the model (sum nodes relabelled as products)
     res3 = copy.deepcopy(results)
     hit = 0
     for r in res3:
@@ -1100,16 +1160,14 @@ def selftest(ctx):
                     nd["h"] = ["product", "operator", "expr"]
                     hit += 1
     col = Collector()
-    judge(col, sl, pool, recs, res3)
+    judge(col, rn, pool, recs, res3)
     outcomes["corrupted DAG changes the model verdict"] = hit > 0 and len(col.binding) > 0
 
     # 4. mutant of the real checker: sum unions arities (v + f accepted)
-    from concurrent.futures import ProcessPoolExecutor
-
     with ProcessPoolExecutor(1) as ex:  # the mutant lives and dies in a child process
-        results4 = replay_records(sl, pool, recs, ex, 0, mutant="sum-union")
+        results4 = replay_records(rn, pool, recs, ex, 0, mutant="sum-union")
     col = Collector()
-    judge(col, sl, pool, recs, results4)
+    judge(col, rn, pool, recs, results4)
     fps4 = {fp for fp, _ in col.violations}
     outcomes["mutant sum-union: property violation reported"] = any(fp.startswith("C14:accepts-") and "list_tensor" not in fp for fp in fps4)
     outcomes["mutant sum-union: model binding rejects it"] = len(col.binding) > 0
